@@ -632,7 +632,11 @@ pub fn run_units(plan: &Plan, known: Vec<Known>) -> Outcome {
             .iter()
             .filter(|(k, _)| k.as_str() == g.scenario)
             .any(|(_, s)| s.cover.get(&g.key).copied().unwrap_or(0) > 0);
-        if !met {
+        // a goal says "this situation must have been reached somewhere in the scenario's space":
+        // it can only be judged when that space was explored to the end (a run that was cut by the
+        // wall cap, or stopped at a violation, reports that instead)
+        let complete = !agg.stop && agg.scen.iter().filter(|(k, _)| k.as_str() == g.scenario).all(|(_, s)| !s.capped);
+        if !met && complete {
             goals_unmet.push(format!("{}:{}", g.scenario, g.key));
         }
     }
